@@ -51,7 +51,7 @@ def gen(data: bytes):
                                tp.below(1 << 30))
         case = {"src": "symmetric", "a": S.shuffled_recipe(tp, m), "b": rb}
     else:
-        case = c02.gen_pair(tp, sources=(4, 6, 3, 0, 0))
+        case = c02.gen_pair(tp, sources=(4, 6, 3, 0, 0, 3))
         case.pop("kind", None)
     cls = case["a"]["cls"]
     stereo = cls in ("SMG", "SCRG") and tp.chance(170)
